@@ -260,6 +260,7 @@ type IndVar struct {
 	Cond    *ssa.BinOp
 	Op      token.Token // comparison operator, normalised so that the counter is on the left
 	Limit   ssa.Value
+	Down    bool // the counter decreases: phi − Step
 	PreInc  bool // the comparison tests phi+step (range-over-index form, phi starts at init and body uses Next)
 	Body    *ssa.BasicBlock
 	Exit    *ssa.BasicBlock
@@ -268,22 +269,8 @@ type IndVar struct {
 
 // findIndVar recognises phi as an induction variable.
 func findIndVar(phi *ssa.Phi) *IndVar {
-	if len(phi.Edges) != 2 {
-		return nil
-	}
-	iv := &IndVar{Phi: phi}
-	for i, e := range phi.Edges {
-		if bo, ok := e.(*ssa.BinOp); ok && bo.Op == token.ADD && (bo.X == phi || bo.Y == phi) {
-			iv.Next = bo
-			if bo.X == phi {
-				iv.Step = bo.Y
-			} else {
-				iv.Step = bo.X
-			}
-			iv.Init = phi.Edges[1-i]
-		}
-	}
-	if iv.Next == nil {
+	iv := affinePhi(phi)
+	if iv == nil {
 		return nil
 	}
 	// find the controlling comparison in the phi's block
@@ -298,7 +285,7 @@ func findIndVar(phi *ssa.Phi) *IndVar {
 	}
 	op := cmp.Op
 	var lhs, rhs ssa.Value = cmp.X, cmp.Y
-	if rhs == phi || rhs == ssa.Value(iv.Next) {
+	if rhs == ssa.Value(phi) || rhs == ssa.Value(iv.Next) {
 		lhs, rhs = rhs, lhs
 		switch op {
 		case token.LSS:
@@ -320,11 +307,50 @@ func findIndVar(phi *ssa.Phi) *IndVar {
 	default:
 		return nil
 	}
+	switch op {
+	case token.LSS, token.LEQ, token.GTR, token.GEQ, token.NEQ:
+	default:
+		return nil
+	}
 	iv.Cond = cmp
 	iv.Op = op
 	iv.Limit = rhs
 	iv.Body = blk.Succs[0]
 	iv.Exit = blk.Succs[1]
+	return iv
+}
+
+// affinePhi recognises phi = [init, phi ± step] (without looking at the loop
+// condition). Down reports a decrementing counter (phi − step).
+func affinePhi(phi *ssa.Phi) *IndVar {
+	if len(phi.Edges) != 2 {
+		return nil
+	}
+	iv := &IndVar{Phi: phi}
+	for i, e := range phi.Edges {
+		bo, ok := e.(*ssa.BinOp)
+		if !ok {
+			continue
+		}
+		switch {
+		case bo.Op == token.ADD && (bo.X == ssa.Value(phi) || bo.Y == ssa.Value(phi)):
+			iv.Next = bo
+			if bo.X == ssa.Value(phi) {
+				iv.Step = bo.Y
+			} else {
+				iv.Step = bo.X
+			}
+			iv.Init = phi.Edges[1-i]
+		case bo.Op == token.SUB && bo.X == ssa.Value(phi):
+			iv.Next = bo
+			iv.Step = bo.Y
+			iv.Down = true
+			iv.Init = phi.Edges[1-i]
+		}
+	}
+	if iv.Next == nil {
+		return nil
+	}
 	return iv
 }
 
